@@ -345,12 +345,13 @@ class Unit(HookHost):
             if isinstance(i, slice):
                 value = list(value)
             current = self[i]
+            # store first: a failing assignment (extended slice of another size) must not touch any parent
+            result = super().__setitem__(i, value)
             if isinstance(current, list):
                 for u in current:
                     u.parent = None
             else:
                 current.parent = None
-            result = super().__setitem__(i, value)
             if isinstance(i, slice):
                 for u in value:
                     u.parent = self._owner()
